@@ -296,6 +296,42 @@ def check_shared(rep, ix):
                        found=f'{kw} guards {guards}', required='two workers may create the same output directory', node=c, module=m)
 
 
+def check_blocking(rep, ix):
+    """State that lives for the whole process accumulates over the files one worker converts.  A queue that producers fill
+    with a blocking put() and that only an optional monitor thread drains must be unbounded, otherwise the n-th message
+    stalls the batch (and with it every file not yet converted)."""
+    roots = ['TotalDepth.RP66V1.ToLAS', 'TotalDepth.LIS.ToLAS', 'TotalDepth.BIT.ToLAS', WL]
+    mods = imports.closure(ix, roots)
+    n_q = 0
+    n_put = 0
+    for mn in sorted(mods):
+        if not mn.startswith('TotalDepth'):
+            continue
+        m = ix.module(mn)
+        queues = {}
+        for name, exprs in m.assigns.items():
+            for e in exprs:
+                if isinstance(e, ast.Call) and _n(e.func).split('.')[-1] in ('Queue', 'LifoQueue', 'PriorityQueue', 'JoinableQueue', 'SimpleQueue'):
+                    queues[name] = e
+        for name, e in queues.items():
+            n_q += 1
+            size = e.args[0] if e.args else None
+            for k in e.keywords:
+                if k.arg == 'maxsize':
+                    size = k.value
+            try:
+                v = ix.fold(mn, size) if size is not None else 0
+            except Exception:
+                v = None
+            puts = [c for c in ast.walk(m.tree) if isinstance(c, ast.Call) and isinstance(c.func, ast.Attribute) and c.func.attr == 'put' and _n(c.func.value) == name
+                    and not any(k.arg in ('block', 'timeout') for k in c.keywords) and len(c.args) == 1]
+            n_put += len(puts)
+            ok = (isinstance(v, int) and v <= 0) or not puts
+            rep.ob('R-C12-SHARED', f'{mn}:{name}', f'process-wide queue `{name}` filled by blocking put() is unbounded', ok,
+                   found=_n(e), required='queue.Queue() without a positive maxsize, or non-blocking puts', node=e, module=m)
+    rep.ob('R-C12-SHARED', 'scan', 'process-wide queues reachable from the converters found', n_q >= 1 and n_put >= 1, found=f'{n_q} queues, {n_put} blocking puts')
+
+
 def _func_name(node):
     p = node
     while p is not None and not isinstance(p, ast.FunctionDef):
@@ -309,7 +345,8 @@ def run(rep, ix, tier):
     check_tasks(rep, ix)
     check_paths(rep, ix)
     check_shared(rep, ix)
+    check_blocking(rep, ix)
     rep.floor('R-C12-ISOLATE', 18)
     rep.floor('R-C12-TASKS', 20)
     rep.floor('R-C12-PATH', 4)
-    rep.floor('R-C12-SHARED', 14)
+    rep.floor('R-C12-SHARED', 16)
